@@ -22,16 +22,19 @@
 #include <stdlib.h>
 
 #define SP_PRE 2
-#define SP_VCAP 40
+#define SP_VCAP 32
 #define SP_NF 6
-#define SP_MAXSTEP 16
+#ifndef SP_MAXSTEP
+#define SP_MAXSTEP 12
+#endif
 /* value ids of the interpreter */
 #define SP_UNDEF 0
 #define SP_NILV 1
 #define SP_FALSEV 2
 #define SP_TRUEV 3
-#define SP_VAL(f) (100 + (f))
-#define SP_INTV(i) (1000 + (i))
+#define SP_VAL(f) (8 + (f))
+#define SP_INTV(i) (32 + ((i) & 63))       /* small integers only (the harness uses 0 and 7) */
+#define SP_NREG 64                          /* registers the interpreter models; the allocator stubs stay below */
 /* run-time kinds */
 #define K_NIL 0
 #define K_FALSE 1
@@ -80,7 +83,7 @@ void sp_ra_deinit_stub(JanetcRegisterAllocator *ra) {}
 /* a free register: never one that holds a live value (the registers of the sub-forms' results, SP_SLOT0..) */
 #define SP_SLOT0 20
 static int sp_is_form_slot(int32_t r) { return r >= SP_SLOT0 && r < SP_SLOT0 + SP_NF; }
-int32_t sp_ra_1_stub(JanetcRegisterAllocator *ra) { int32_t r = nd_i32(); __CPROVER_assume(r >= 0 && r <= 0xEF && !sp_is_form_slot(r)); sp_alloc_calls++; sp_alloc_last = r; return r; }
+int32_t sp_ra_1_stub(JanetcRegisterAllocator *ra) { int32_t r = nd_i32(); __CPROVER_assume(r >= 0 && r < SP_NREG && !sp_is_form_slot(r)); sp_alloc_calls++; sp_alloc_last = r; return r; }
 int32_t sp_ra_temp_stub(JanetcRegisterAllocator *ra, JanetcRegisterTemp t) { int32_t r = nd_i32(); __CPROVER_assume(r >= 0xF0 && r <= 0xFF); return r; }
 void sp_ra_freetemp_stub(JanetcRegisterAllocator *ra, int32_t reg, JanetcRegisterTemp t) {}
 void sp_ra_touch_stub(JanetcRegisterAllocator *ra, int32_t reg) { sp_touch_calls++; sp_touched = reg; }
@@ -116,12 +119,12 @@ JanetSlot sp_value_stub(JanetFopts opts, Janet x) {
 void sp_throwaway_stub(JanetFopts opts, Janet x) { sp_throwaway_calls++; sp_throwaway_form = sp_formid(x); }
 
 /* ------------------------------------------------------------------ reference interpreter of the emitted code */
-static int32_t sp_reg[256];
+static int8_t sp_reg[SP_NREG];
 static int sp_prog[SP_NF], sp_first[SP_NF], sp_clock;
 static int sp_halt, sp_retform, sp_undef_read, sp_changed, sp_disorder, sp_steps;
-static int32_t sp_retval, sp_haltpc;
+static int8_t sp_retval; static int32_t sp_haltpc;
 
-static int sp_kind_of(int32_t v) {
+static int sp_kind_of(int8_t v) {
     if (v == SP_UNDEF) { sp_undef_read = 1; return K_OTHER; }
     if (v == SP_NILV) return K_NIL;
     if (v == SP_FALSEV) return K_FALSE;
@@ -129,7 +132,7 @@ static int sp_kind_of(int32_t v) {
     return K_OTHER;
 }
 /* v is the value of form f */
-static int sp_is_value_of(int32_t v, int f) {
+static int sp_is_value_of(int8_t v, int f) {
     if (v == SP_VAL(f)) return 1;
     if (!sp_isconst[f]) return 0;
     Janet k = sp_constv[f];
@@ -166,6 +169,7 @@ static void sp_run(int32_t pc, int32_t n) {
             continue;
         }
         uint32_t op = w & 0xFF, a = (w >> 8) & 0xFF, b16 = w >> 16;
+        if (a >= SP_NREG && op != JOP_JUMP && op != JOP_RETURN_NIL) { sp_halt = H_BAD; break; }
         int32_t off16 = (int32_t) w >> 16, off24 = (int32_t) w >> 8;
         if (w == (0x80 | JOP_JUMP)) { sp_halt = H_BREAK; }
         else if (op == JOP_JUMP) pc += off24;
@@ -173,8 +177,8 @@ static void sp_run(int32_t pc, int32_t n) {
         else if (op == JOP_JUMP_IF) pc += (sp_kind_of(sp_reg[a]) == K_OTHER) ? off16 : 1;
         else if (op == JOP_JUMP_IF_NIL) pc += (sp_kind_of(sp_reg[a]) == K_NIL) ? off16 : 1;
         else if (op == JOP_JUMP_IF_NOT_NIL) pc += (sp_kind_of(sp_reg[a]) != K_NIL) ? off16 : 1;
-        else if (op == JOP_MOVE_NEAR) { if (b16 > 0xFF) sp_halt = H_BAD; else { sp_reg[a] = sp_reg[b16]; pc++; } }
-        else if (op == JOP_MOVE_FAR) { if (b16 > 0xFF) sp_halt = H_BAD; else { sp_reg[b16] = sp_reg[a]; pc++; } }
+        else if (op == JOP_MOVE_NEAR) { if (b16 >= SP_NREG) sp_halt = H_BAD; else { sp_reg[a] = sp_reg[b16]; pc++; } }
+        else if (op == JOP_MOVE_FAR) { if (b16 >= SP_NREG) sp_halt = H_BAD; else { sp_reg[b16] = sp_reg[a]; pc++; } }
         else if (op == JOP_LOAD_NIL) { sp_reg[a] = SP_NILV; pc++; }
         else if (op == JOP_LOAD_TRUE) { sp_reg[a] = SP_TRUEV; pc++; }
         else if (op == JOP_LOAD_FALSE) { sp_reg[a] = SP_FALSEV; pc++; }
@@ -233,7 +237,7 @@ static JanetFopts sp_opts(void) {
     if (sp_ctx == SP_TAIL) o.flags |= JANET_FOPTS_TAIL;
     if (sp_ctx == SP_USED && nd_int()) {
         o.flags |= JANET_FOPTS_HINT; o.hint.flags = JANET_SLOT_NAMED | JANET_SLOT_MUTABLE | JANET_SLOTTYPE_ANY;
-        o.hint.index = nd_i32(); __CPROVER_assume(o.hint.index >= 0 && o.hint.index <= 0xEF);
+        o.hint.index = nd_i32(); __CPROVER_assume(o.hint.index >= 0 && o.hint.index < SP_NREG);
     }
     if (nd_int()) o.flags |= JANET_FOPTS_ACCEPT_SPLICE;
     return o;
@@ -319,7 +323,7 @@ void h_if(void) {
     } else {
         __CPROVER_assert(sp_halt == H_END, "comp.if: control continues with the first instruction after the if");
         if (sp_ctx == SP_USED) {
-            __CPROVER_assert(!(ret.flags & JANET_SLOT_CONSTANT) && ret.envindex < 0 && ret.index >= 0 && ret.index <= 0xFF && sp_is_value_of(sp_reg[ret.index], chosen),
+            __CPROVER_assert(!(ret.flags & JANET_SLOT_CONSTANT) && ret.envindex < 0 && ret.index >= 0 && ret.index < SP_NREG && sp_is_value_of(sp_reg[ret.index], chosen),
                              "comp.if: the result slot holds the value of the selected branch (nil when there is no else branch)");
             if (opts.flags & JANET_FOPTS_HINT) { __CPROVER_assert(ret.index == opts.hint.index, "comp.if: a usable hint slot receives the result"); REACH("if: hint"); }
             REACH("if: value used");
